@@ -235,17 +235,17 @@ def concrete_structs(idx, ns, d):
 
 
 @st.composite
-def value_for(draw, idx, costs, t, fuel=3, wild=False, omit_callers=frozenset(), bias=None, exact_top=False):
+def value_for(draw, idx, costs, t, fuel=3, wild=False, omit_callers=frozenset(), bias=None, exact_top=False, subclass=False):
     k = t[0]
     if k == 'prim':
         s = prim_value_strategy(t, wild=wild)
         return draw(s)
     if k == 'alias':
-        return draw(value_for(idx, costs, idx.get(t[1], t[2])['type'], fuel, wild, omit_callers, bias))
+        return draw(value_for(idx, costs, idx.get(t[1], t[2])['type'], fuel, wild, omit_callers, bias, False, subclass))
     if k == 'nullable':
         if fuel <= 0 or draw(st.integers(0, 3)) == 0:
             return None
-        return draw(value_for(idx, costs, t[1], fuel, wild, omit_callers, bias))
+        return draw(value_for(idx, costs, t[1], fuel, wild, omit_callers, bias, False, subclass))
     if k == 'list':
         lo = t[2] or 0
         hi = t[3] if t[3] is not None else lo + 3
@@ -253,13 +253,13 @@ def value_for(draw, idx, costs, t, fuel=3, wild=False, omit_callers=frozenset(),
             n = lo
         else:
             n = draw(st.sampled_from(sorted({lo, hi, min(hi, lo + 1)})))
-        return [draw(value_for(idx, costs, t[1], fuel - 1, wild, omit_callers, bias)) for _ in range(n)]
+        return [draw(value_for(idx, costs, t[1], fuel - 1, wild, omit_callers, bias, False, subclass)) for _ in range(n)]
     if k == 'map':
         n = 0 if fuel <= 0 else draw(st.integers(0, 2))
         out = {}
         for _ in range(n):
             key = draw(value_for(idx, costs, t[1], 0, wild))
-            out[key] = draw(value_for(idx, costs, t[2], fuel - 1, wild, omit_callers, bias))
+            out[key] = draw(value_for(idx, costs, t[2], fuel - 1, wild, omit_callers, bias, False, subclass))
         return out
     d = idx.get(t[1], t[2])
     if d['k'] == 'struct':
@@ -281,10 +281,35 @@ def value_for(draw, idx, costs, t, fuel=3, wild=False, omit_callers=frozenset(),
                 (bias and any((n_, s_['name'], f['name']) in bias.get('fields', ()) for n_, s_ in idx.chain(cn, cd)))
             if opt and not (hotf and fuel >= 0 and draw(st.integers(0, 9)) > 0) and (fuel <= 0 or draw(st.booleans())):
                 continue
-            v = draw(value_for(idx, costs, f['type'], fuel - 1, wild, omit_callers, bias))
+            v = draw(value_for(idx, costs, f['type'], fuel - 1, wild, omit_callers, bias, False, subclass))
             if v is None and idx.is_nullable(f['type']):
                 continue          # setting a nullable field to None leaves it unset
             fields[f['name']] = v
+        if subclass and not exact_top and not d.get('subtypes') and fuel > 0 and draw(st.integers(0, 5)) == 0:
+            # an instance of a (plain) descendant where the struct itself is declared: "subclasses allowed
+            # for structs"; it is serialized as the declared type, its own fields are not part of that type
+            kids = []
+            stack = [(t[1], d)]
+            while stack:
+                n_, d_ = stack.pop()
+                for c in idx.children(n_, d_['name']):
+                    kids.append(c)
+                    stack.append(c)
+            kids = [c for c in kids if costs.cost.get((c[0], c[1]['name']), costs.INF) < costs.INF]
+            if kids:
+                kn, kd = draw(st.sampled_from(sorted(kids, key=lambda c: (c[0], c[1]['name']))))
+                declared = {f['name'] for _, _, f in idx.struct_all_fields(t[1], d)}
+                extra = {}
+                for _, _, f in idx.struct_all_fields(kn, kd):
+                    if f['name'] in declared or omitted_for(idx, f, omit_callers):
+                        continue
+                    if idx.is_optional(f) and draw(st.booleans()):
+                        continue
+                    v = draw(value_for(idx, costs, f['type'], min(fuel - 1, 1), wild, omit_callers, None, False, False))
+                    if v is None and idx.is_nullable(f['type']):
+                        continue
+                    extra[f['name']] = v
+                return ('struct', (cn, cd['name']), fields, {'as': (kn, kd['name']), 'extra': extra})
         return ('struct', (cn, cd['name']), fields)
     tags = [tg for _, _, tg in idx.union_all_tags(t[1], d, with_other=False)
             if not omitted_for(idx, tg, omit_callers)]
@@ -301,7 +326,7 @@ def value_for(draw, idx, costs, t, fuel=3, wild=False, omit_callers=frozenset(),
     if tg['type'] is None:
         return ('union', (t[1], t[2]), tg['name'], None)
     return ('union', (t[1], t[2]), tg['name'],
-            draw(value_for(idx, costs, tg['type'], fuel - 1, wild, omit_callers, bias)))
+            draw(value_for(idx, costs, tg['type'], fuel - 1, wild, omit_callers, bias, False, subclass)))
 
 
 def omitted_for(idx, f, callers):
@@ -333,10 +358,14 @@ def materialize(pkg, idx, t, v):
         return {key: materialize(pkg, idx, t[2], x) for key, x in v.items()}
     if v[0] == 'struct':
         ns, name = v[1]
+        fields = dict(v[2])
+        if len(v) > 3:          # an instance of a descendant class standing in for the declared struct
+            ns, name = v[3]['as']
+            fields.update(v[3]['extra'])
         d = idx.get(ns, name)
         obj = pkg.cls(ns, name)()
         ftypes = {f['name']: f['type'] for _, _, f in idx.struct_all_fields(ns, d)}
-        for fname, fv in v[2].items():
+        for fname, fv in fields.items():
             setattr(obj, fname, materialize(pkg, idx, ftypes[fname], fv))
         return obj
     ns, name = v[1]
@@ -561,3 +590,16 @@ def is_complete(v):
     if isinstance(v, dict):
         return all(is_complete(x) for x in v.values())
     return True
+
+
+def has_subclass_instance(v):
+    """Does the abstract value hold a descendant-class instance in a parent-typed position?"""
+    if isinstance(v, tuple) and v and v[0] == 'struct':
+        return len(v) > 3 or any(has_subclass_instance(x) for x in v[2].values())
+    if isinstance(v, tuple) and v and v[0] == 'union':
+        return has_subclass_instance(v[3])
+    if isinstance(v, list):
+        return any(has_subclass_instance(x) for x in v)
+    if isinstance(v, dict):
+        return any(has_subclass_instance(x) for x in v.values())
+    return False
